@@ -545,7 +545,7 @@ class Stage:
         for_all_primitives(parameter, value, action, "First argument to set_value must be a parameter or a simple concatenation of parameters", rhs_type=DM)
 
 
-    def set_initial(self, var, value, priority=True):
+    def set_initial(self, var, value, priority=False):
         """Provide an initial guess
 
         Many Optimal Control solution methods are based on
